@@ -207,7 +207,7 @@ def new_project(root):
     return Project(root, ropefolder=None)
 
 
-def run_rope_op(tree, op):
+def run_rope_op(tree, op, preview=None):
     """Write the tree to a scratch project, perform the refactoring for real, read the tree back.
     Returns dict(raised=None|str, files={rel: text}, dirs=[rel])."""
     from rope.refactor import move, rename, topackage
@@ -220,7 +220,11 @@ def run_rope_op(tree, op):
             if op[0] == "move":
                 res = project.get_resource(relpath_of_res(op[1]))
                 dest = project.get_resource("/".join(op[2])) if op[2] else project.root
-                changes = move.create_move(project, res).get_changes(dest)
+                mover = move.create_move(project, res)
+                if preview is not None:
+                    # a two-step session on one Move object: look at the changes for another destination, discard
+                    mover.get_changes(project.get_resource("/".join(preview)) if preview else project.root)
+                changes = mover.get_changes(dest)
             elif op[0] == "rename":
                 res = project.get_resource(relpath_of_res(op[1]))
                 changes = rename.Rename(project, res).get_changes(op[2])
@@ -268,6 +272,10 @@ for name in mods:
             if isinstance(o, types.FunctionType):
                 f = sys.modules[o.__module__].__file__
                 return ["G", o.__module__, o.__qualname__, os.path.relpath(f, root), o()]
+            if isinstance(o, type):
+                f = sys.modules[o.__module__].__file__
+                v = o().val() if hasattr(o, "val") else None
+                return ["G", o.__module__, o.__qualname__, os.path.relpath(f, root), v]
             return ["?", repr(o)]
         def show(o):
             # only the module under test reports (modules it imports may have show() lines of their own)
